@@ -43,7 +43,7 @@ def run(an, cfg):
     urel = "rho" if cfg["K"] else "c"
     kw["l2_eps"] = num("l2_eps", ({urel: 1, "w": 1} if cfg["W"] else {urel: 1}), sign="POS")
     kw["l1_eps"] = num("l1_eps", U_INT, sign="POS")
-    kw["norm"] = none()
+    kw["norm"] = num("norm", ({urel: 1, "w": 1} if cfg["W"] else {urel: 1}), sign="NONNEG") if cfg.get("norm") == "number" else none()
     kw["Epsilon"] = {"array": arr("Epsilon", S("F", "SRC"), U_EPS, sign="NONNEG"), "het": strv("Epsilon", "heteroscedastic"),
                      None: none()}[cfg["Epsilon"]]
     kw["L1"] = {None: none(), "array": arr("L1", S("N"), U_INT, sign="NONNEG"), "number": num("L1", U_INT, sign="NONNEG")}[cfg["L1"]]
@@ -60,6 +60,11 @@ def check(rep, an, tier):
         d = {n: AXES[n][0][0] for n in AXES}
         cfgs += [dict(d, bs="sym", L1="array"), dict(d, bs="sym", L1="array", lb="any"), dict(d, bs="sym", L1="number", K="mat"),
                  dict(d, K="mat", Epsilon="het"), dict(d, K="mat", Epsilon=None)]
+    # the attained error handed over as ONE number is the slack of every sample
+    dn = {n: AXES[n][0][0] for n in AXES}
+    for bs in (1, "sym"):
+        resn = run(an, dict(dn, bs=bs, norm="number"))
+        R.rule_iter_arrays_per_sample(rep, resn, entry)
     for cfg in cfgs:
         res = run(an, cfg)
         probs = F.final_problems(res)
@@ -123,6 +128,29 @@ def check(rep, an, tier):
                 rep.check("R-DISPATCH", "L1 window present when requested (two-sided, fed by L1 and l1_eps)", len(both) >= 2,
                           where=F.where_po(po), construct="L1 window constraints", entry=entry, config=res.config,
                           msg=f"{len(both)} constraint(s) depend on both L1 and l1_eps; a window needs an upper and a lower one")
+                # the window bounds the total from BOTH sides: an upper and a lower inequality, or one inequality |total − L1| ≤ eps
+                sides = set()
+                for c in cons:
+                    own = _own_deps(res, c)
+                    if "L1" not in own:
+                        continue
+                    l_, r_, op_ = c.tag("lhs"), c.tag("rhs"), c.tag("op")
+                    if l_ is None or r_ is None or op_ not in ("LtE", "GtE", "Lt", "Gt"):
+                        continue
+                    lv, rv = _has_var(res, l_), _has_var(res, r_)
+                    if lv == rv:
+                        continue
+                    vs = l_ if lv else r_
+                    upper = (lv and op_ in ("LtE", "Lt")) or (rv and op_ in ("GtE", "Gt"))
+                    if upper and any(at == "abs" and "L1" in _own_deps(res, v_) and _has_var(res, v_) for at, v_, ops_ in R.walk_atoms(vs)):
+                        sides |= {"upper", "lower"}         # |f(x) − L1| ≤ eps
+                    else:
+                        sides.add("upper" if upper else "lower")
+                if sides:
+                    rep.check("R-DISPATCH", "the L1 window bounds the total from both sides", sides >= {"upper", "lower"}, where=F.where_po(po),
+                              construct="L1 window constraints", entry=entry, config=res.config,
+                              msg=f"the constraints that carry the requested total bound the total intensity only from the {sorted(sides)[0]} side: "
+                                  f"the variance objective then pushes the total out of the window on the open side")
         # --- types of the results
         urel = U_REL if cfg["K"] else U_CAPTURE
         uvar = {k: 2 * v for k, v in urel.items()}
@@ -240,6 +268,21 @@ def estimator_chain(rep, an):
                 if not vs:
                     rep.undecided("R-FLOW", "sampled uncertainty: variance over samples of the capture integral", where=res.fn.loc(),
                                   construct="np.var(capture of the filter samples, axis=0)", entry="ReceptorEstimator.register_system", config=res.config)
+
+
+def _own_deps(res, v):
+    """data origins of an expression through the Parameters it mentions (not through lists that merely contain it)"""
+    f = v.flat()
+    d = set(f.data)
+    for r_ in f.refs:
+        o = res.heap.get(r_)
+        if o is not None and o.kind == "cvxparam" and o.content is not None:
+            d |= set(o.content.data)
+    return {x.split("|")[0] for x in d}
+
+
+def _has_var(res, v):
+    return any(res.heap.get(r_) is not None and res.heap[r_].kind == "cvxvar" for r_ in v.flat().refs)
 
 
 def _reg(an):
